@@ -430,6 +430,16 @@ func (q *PathQuery) run() ([]*PathState, error) {
 					break
 				}
 			}
+			if _, ok := in.(*ssa.RunDefers); ok && q.depth == 0 {
+				if forks := q.inlineDefers(st, cur.blk); forks != nil {
+					for _, ns := range forks {
+						ns.Blocks = st.Blocks
+						stack = append(stack, pstate{blk: cur.blk, idx: i + 1, st: ns})
+					}
+					ended = true
+					break
+				}
+			}
 			// not explored inline: the events that every path of the callee passes are events of the call (added once —
 			// an inlined callee contributes its events itself)
 			if q.Event != nil && !tagged && (wasArmed || q.EventsBeforeFrom) {
